@@ -162,7 +162,14 @@ func c10Run(c *wk.Ctx, idx int64, seed int64, shared bool, scratch string) (tran
 			}
 			return dhcpFrame(mac, src, netip.MustParseAddr("255.255.255.255"), m, 68, 67, bcastMAC)
 		}
-		switch k := r.Intn(16); {
+		switch k := r.Intn(17); {
+		case k == 16:
+			// another DHCP server's OFFER to one of the clients, seen on port 68: in secondary mode the handler answers with a
+			// forged DECLINE to that server, sent from a goroutine of its own after ProcessPacket has returned
+			q := refdec.DHCPMsg{Op: 2, HType: 1, HLen: 6, XID: xid[cl], YI: e.LANIP(r)}
+			copy(q.CHAddr[:], mac[:])
+			q.Options = []refdec.DHCPOpt{{Code: 53, Data: []byte{2}}, {Code: 54, Data: ip4b(nic.RouterIP)}, {Code: 51, Data: []byte{0, 0, 14, 16}}, {Code: 61, Data: append([]byte{1}, mac[:]...)}}
+			pkt, label = dhcpFrame(toMAC(nic.RouterMAC), nic.RouterIP, netip.MustParseAddr("255.255.255.255"), q, 67, 68, bcastMAC), "dhcp-foreign-offer"
 		case k < 2:
 			x := xid[cl]
 			x[0], x[1], x[2], x[3] = byte(cl), byte(step), byte(seed), 0x10
